@@ -38,6 +38,33 @@ CHECKS = {
     ),
 }
 
+CHECKS.update({
+    "C09": dict(
+        engine="E1 SymArray (z3 over aliasing)",
+        cat=TV,
+        text="Every argument (and its base buffer) is snapshotted cell-wise before the real call on SymArrays in 5 memory layouts (contiguous, transposed view, sliced view, stride-0 broadcast view, read-only); afterwards z3 decides whether any protected cell can differ for some contents/coordinates. Views are numpy's real views, stores go through the symbolic store model.",
+        note="Trusted: object-dtype buffers share numpy's view/copy semantics; symbolic store model; z3. dtype itself is not varied. Family bounds as C01.",
+        tech="symbolic execution of real code with alias-preserving buffers + SMT query on cell changes",
+        ref="DESIGN.md §3 C09",
+    ),
+    "C13": dict(
+        engine="E1 SymArray (z3) + concrete monitors",
+        cat=TV,
+        text="For every sampled subset of argument positions replaced by factories (4 signature kinds) z3 proves OP(..factory..) == OP(..factory's tensor..) for all contents; the shape/keywords each factory receives and the invocation counts (graph=True, first run, cached repeat, rejected call, misbehaving factory) are observed concretely on the same runs.",
+        note="Solver decides result equality; shapes/keywords/counts are concrete observations (stated in evidence). Family bounds as C01.",
+        tech="relational symbolic execution (factory vs tensor) + SMT equivalence; concrete invocation monitor",
+        ref="DESIGN.md §3 C13",
+    ),
+    "C15": dict(
+        engine="E1 SymArray + E2 RefSem with uninterpreted functions (z3)",
+        cat=TV,
+        text="The user function wrapped by adapt_numpylike_reduce / adapt_numpylike_elementwise is an UNINTERPRETED z3 function of the ordered sub-tensor (and keyword-only option); RefSem uses the same function as elementary operation, so each unsat holds for every user function of that arity. Arguments received (axis tuple, ranks, keywords across cache hits) and misbehaving functions are monitored concretely.",
+        note="adapt_with_vmap is outside (no vmap-capable framework installed). Sub-tensor <= 9 elements, <= 3 element-wise inputs.",
+        tech="symbolic execution with uninterpreted user function + SMT validity (EUF+LIA)",
+        ref="DESIGN.md §3 C15",
+    ),
+})
+
 NOT_APPLICABLE = {
     "C17": "quantifies over all axis lengths and the syntactic form of generated text; stages 2-4 cannot run with symbolic sizes under any installed engine (sympy, numpy int32 casts), see DESIGN.md §3 C17",
 }
